@@ -142,6 +142,27 @@ fn rebuild_net(n: &RefNet, rng: &mut Rng) -> Network<M> {
             let mut envs: Vec<Vec<Env>> = f.iter().map(|((s, d), q)| q.iter().map(|m| (*s, *d, m.clone())).collect()).collect();
             // interleave flows in a different order (order inside a flow must be kept)
             rng.shuffle(&mut envs);
+            if rng.chance(1, 2) {
+                // flows whose ring buffers wrap around (the physical layout must not matter)
+                let mut map = std::collections::BTreeMap::new();
+                for flow in envs {
+                    let n = flow.len();
+                    let mut q: std::collections::VecDeque<M> = std::collections::VecDeque::with_capacity(n);
+                    let k = rng.usize_below(n.max(1));
+                    for _ in 0..k {
+                        q.push_back(M { tag: 255, who: None });
+                    }
+                    for _ in 0..k {
+                        q.pop_front();
+                    }
+                    let key = (Id::from(flow[0].0), Id::from(flow[0].1));
+                    for e in flow {
+                        q.push_back(e.2);
+                    }
+                    map.insert(key, q);
+                }
+                return Network::Ordered(map);
+            }
             Network::new_ordered(envs.into_iter().flatten().map(|e| env_of(&e)))
         }
         RefNet::NonDup(b) => {
@@ -426,6 +447,30 @@ pub fn check_containers(rng: &mut Rng, pool: &mut Pool, v: &mut Vec<Violation>, 
         let tp: Vec<Timers<u8>> = parts.iter().map(|p| rebuild_timers(&p.iter().cloned().collect(), rng)).collect();
         pool.add("Vec<Timers>", format!("{:?}", parts), stateright::verif_fingerprint(&tp), calls(&tp), "timers", no_diff, v);
         c.add("identity_container_values", 5);
+    }
+    // W: wide actor-system states (more actors than bits in a machine word), crash flags differ
+    {
+        let n = *rng.pick(&[2usize, 9, 63, 64, 65, 66, 130]);
+        let base = RefState {
+            actors: vec![S { v: 0, peer: None, log: vec![] }; n],
+            net: RefNet::NonDup(Default::default()),
+            timers: vec![Default::default(); n],
+            choices: vec![Default::default(); n],
+            down: vec![false; n],
+            hist: Hist::default(),
+        };
+        let mut variants = vec![base.clone()];
+        for i in [0usize, 1, n - 1, n.saturating_sub(64), n.saturating_sub(65), rng.usize_below(n)] {
+            let mut x = base.clone();
+            x.down[i.min(n - 1)] = true;
+            variants.push(x);
+        }
+        for x in variants {
+            let r = rebuild(&x, rng);
+            let key = format!("{} actors, down {:?}", n, x.down.iter().enumerate().filter(|(_, d)| **d).map(|(i, _)| i).collect::<Vec<_>>());
+            pool.add("wide ActorModelState", key, stateright::verif_fingerprint(&r), calls(&r), "wide", |_, _| "crash-flags".to_string(), v);
+        }
+        c.add("identity_wide_states", 7);
     }
     // E: vector clocks with trailing zeros; F: dense maps
     for _ in 0..4 {
